@@ -167,11 +167,19 @@ class SymGen:
             if isinstance(a2, ast.Subscript) and self.ann_name(a2.value, m2).split(".")[-1] == "Union":
                 sl = a2.slice
                 sub = list(sl.elts) if isinstance(sl, ast.Tuple) else [sl]
-                v = self.mk_union(sub, m2, name, args)
-                if isinstance(v, SymObj):
-                    classes.extend(v.static)
-                    continue
-                raise Unsupported("nested union of non-classes")
+                stack = [(x, m2) for x in sub]
+                while stack:
+                    x, mx = stack.pop(0)
+                    x2, mx2 = self.resolve_alias(x, mx)
+                    if isinstance(x2, ast.Subscript) and self.ann_name(x2.value, mx2).split(".")[-1] == "Union":
+                        sl2 = x2.slice
+                        stack = [(y, mx2) for y in (list(sl2.elts) if isinstance(sl2, ast.Tuple) else [sl2])] + stack
+                        continue
+                    cx = mx2.resolve_expr_to_class(x2)
+                    if not isinstance(cx, ClassInfo):
+                        raise Unsupported("nested union of non-classes")
+                    classes.append(cx)
+                continue
             h = self.ann_name(a2, m2)
             if h in PRIMS:
                 prims.append(h)
